@@ -54,7 +54,10 @@ type Scheduler struct {
 	// HoldPostCommit: park also after commit (needed to run a whole writer
 	// inside a waiter's check-to-wait window).
 	HoldPostCommit bool
-	Trace          []string
+	// Only, when set, restricts holding to these park points ("preBegin",
+	// "postCommit", "postQuery"); "postQuery" is held only when named here.
+	Only  map[string]bool
+	Trace []string
 }
 
 func NewScheduler(actors ...string) *Scheduler {
@@ -69,6 +72,19 @@ func (g *Gate) SetScheduler(s *Scheduler) {
 	g.mu.Lock()
 	g.sched = s
 	g.mu.Unlock()
+}
+
+// holds reports whether a park point is currently held for an actor.
+func (g *Gate) holds(actor, where string) bool {
+	g.mu.Lock()
+	s := g.sched
+	g.mu.Unlock()
+	if s == nil {
+		return false
+	}
+	s.mu.Lock()
+	defer s.mu.Unlock()
+	return s.actors[actor] && s.Only != nil && s.Only[where]
 }
 
 func (g *Gate) park(actor, where string) {
@@ -86,7 +102,7 @@ func (g *Gate) park(actor, where string) {
 
 func (s *Scheduler) park(actor, where string) {
 	s.mu.Lock()
-	if !s.actors[actor] || (where == "postCommit" && !s.HoldPostCommit) {
+	if !s.actors[actor] || (where == "postCommit" && !s.HoldPostCommit) || (s.Only != nil && !s.Only[where]) || (s.Only == nil && where == "postQuery") {
 		s.mu.Unlock()
 		return
 	}
